@@ -188,7 +188,10 @@ func runC10(cfg Config) {
 		"blobs (empty, single chunk, many chunks, runs of null chunks) x histories of ReadAt(offset,len incl. zero-length, spanning, at/after "+
 			"the end), WriteState, and restarts (with saved state; state file removed; cache file removed; cache file truncated) x scripted "+
 			"transient store failures at arbitrary call numbers, vs the model; concurrent readers (goroutines) on one sparse file with a "+
-			"failing store; monitor: every successful read equals the blob's range. non-trivial = distinct history with >= 2 chunks and >= 3 ops")
+			"failing store; monitor: every successful read equals the blob's range; 2-5 ReadAt callers with overlapping ranges plus the pre-load "+
+			"goroutines on one sparse file under a cooperative scheduler (verifSparse hooks; scripted store/Data()/write failures, null chunks): the "+
+			"recorded event trace must be a behaviour of the Lean machine SparseConc.step (sparse.accept), final call results, bitmap and cache file flags "+
+			"must agree. non-trivial = distinct history with >= 2 chunks and >= 3 ops")
 	m, err := StartModel(cfg.Driver)
 	if err != nil {
 		fatal(err)
@@ -392,6 +395,8 @@ func runC10(cfg Config) {
 			monitor("concurrent sparse read returned bytes that differ from the blob ("+bad+")", caseLine, "")
 		}
 	}
+	// concurrent readers and pre-load goroutines under a cooperative scheduler: trace validation (c10conc.go)
+	runC10Conc(cfg, rep, m, rng)
 	rep.Write(cfg.Out)
 }
 
